@@ -56,7 +56,7 @@ Deliverables, written into {wt}/_seed/ :
   - meta1.json (meta2.json): {{"property": "{pid}", "summary": "...what was changed...", "needs": "...what it needs
     in order to manifest...", "files": [...], "ran": "...commands you ran and their results (suite pass count with the
     change, demo result with and without the change)..."}}.
-Before finishing: make sure each diff applies cleanly to a clean checkout (`git stash; git apply --check _seed/changeN.diff`),
+Before finishing: make sure each diff applies cleanly to a clean checkout (revert your edits with `git checkout -- .` and run `git apply --check _seed/changeN.diff`; do NOT use `git stash`, it is shared between worktrees),
 that the suite passes with each change applied alone, that each demo fails with its change and passes without, and then
 leave the worktree's tracked files UNMODIFIED (git checkout -- . ; keep only the untracked _seed/ directory).
 Report briefly what you produced. Keep scratch data inside {wt} and clean up temporary datasets.""")
